@@ -69,6 +69,14 @@ def gen_case(run, tie):
         ts[a]["uuid"] = str(_u.UUID(int=r.getrandbits(128), version=4))
         ts[b]["uuid"] = None if (not audit and r.random() < 0.5) else str(_u.UUID(int=r.getrandbits(128), version=4))
         uuid_only = True
+    tz = None
+    if r.random() < 0.25:
+        # named journal zone with DST, zone-less time stamps on both sides of a transition:
+        # the instant of each must not depend on what was parsed before it
+        tz = r.choice(['name = "Europe/Helsinki"', 'name = "America/New_York"'])
+        days = ["2024-03-31", "2024-10-27", "2024-03-30"] if "Helsinki" in tz else ["2024-03-10", "2024-11-03", "2024-03-09"]
+        for t in ts:
+            t["ts"] = "%sT%02d:%02d:00" % (r.choice(days[:2] if r.random() < 0.8 else days), r.choice([0, 1, 1, 2, 3, 4, 12, 12, 23]), r.choice([0, 30, 59]))
     prices = None
     if r.random() < 0.35:
         # price conversion: several commodities with price entries at the same instant
@@ -80,7 +88,7 @@ def gen_case(run, tie):
         r.shuffle(lines)
         prices = {"db": "\n".join(lines) + "\n", "lookup": r.choice(["last-price", "given-time", "txn-time"])}
     return {"txns": ts, "audit": audit, "tie": tie, "group_by": r.choice(["year", "month", "date", "iso-week", "iso-week-date"]),
-            "eq_sel": r.random() < 0.3, "uuid_only": uuid_only, "prices": prices, "reruns": 4 if prices else 1}
+            "eq_sel": r.random() < 0.3, "uuid_only": uuid_only, "prices": prices, "reruns": 4 if prices else 1, "tz": tz}
 
 
 def arrangements(run, c):
@@ -107,6 +115,17 @@ def arrangements(run, c):
         if sh:
             inputs.append({"name": nm, "text": J.print_journal([t for _, t in sh], r.choice([" ", "   "]), "ult", "\n")})
     arr.append(("sharded", {"load": "fsdir", "fs_dir": "", "fs_ext": "txn", "inputs": inputs}, None))
+    # the same shards, one of them reached through a symbolic link to a directory outside the root
+    if inputs:
+        moved = r.randrange(len(inputs))
+        inputs2 = []
+        for k, i in enumerate(inputs):
+            if k == moved:
+                inputs2.append({"name": "real/" + i["name"], "text": i["text"]})
+            else:
+                inputs2.append({"name": "root/" + i["name"], "text": i["text"]})
+        inputs2.append({"name": "root/linked-dir", "symlink_to": "../real"})
+        arr.append(("sharded+symlinked-dir", {"load": "fsdir", "fs_dir": "root", "fs_ext": "txn", "inputs": inputs2}, None))
     return arr
 
 
@@ -130,7 +149,8 @@ def main(run):
                            targets='"balance", "balance-group", "register"',
                            eq_acc=(', accounts = ["a.*", "e.*"]' if c.get("eq_sel") else ""),
                            price=('[price]\ndb-path = "prices.db"\nlookup-type = "%s"\n' % pr["lookup"]) if pr else "",
-                           rcomm=('commodity = "EUR"' if pr else ""))
+                           rcomm=('commodity = "EUR"' if pr else ""),
+                           **({"tz": c["tz"]} if c.get("tz") else {}))
         conf = {"toml": toml}
         overl = None
         if pr:
